@@ -72,6 +72,44 @@ def carrier_order(expr):
     return out
 
 
+def _canon_until(fn_node, stop):
+    """alpha-normalised source of the statements of fn_node up to and including `stop` (docstrings, no-op expressions and logging dropped; names numbered by first use)"""
+    import copy
+    names = {}
+
+    class Ren(ast.NodeTransformer):
+        def visit_Name(self, n):
+            names.setdefault(n.id, "v%d" % len(names))
+            return ast.copy_location(ast.Name(id=names[n.id], ctx=n.ctx), n)
+
+        def visit_arg(self, n):
+            names.setdefault(n.arg, "v%d" % len(names))
+            return n
+
+    def clean(body):
+        out = []
+        for st in body:
+            if isinstance(st, ast.Pass) or (isinstance(st, ast.Expr) and isinstance(st.value, ast.Constant)):
+                continue
+            if isinstance(st, ast.Expr) and isinstance(st.value, ast.Call) and unparse(st.value.func).startswith(("log.", "logging.")):
+                continue
+            for fld in ("body", "orelse", "finalbody"):
+                sub = getattr(st, fld, None)
+                if isinstance(sub, list) and sub and isinstance(sub[0], ast.stmt):
+                    setattr(st, fld, clean(sub) or [ast.Pass()])
+            out.append(st)
+        return out
+    for a in fn_node.args.args:
+        names.setdefault(a.arg, "v%d" % len(names))
+    body = []
+    for st in fn_node.body:
+        body.append(st)
+        if st is stop:
+            break
+    body = clean(copy.deepcopy(body))
+    return [ast.unparse(Ren().visit(st)) for st in body]
+
+
 def run(ctx, R, tier):
     p = ctx.p
     R.rule("C02-R1", "handleRequest: every dynamic call / oneway hand-off takes its callee from _get_attribute; attribute access goes through the "
@@ -81,6 +119,7 @@ def run(ctx, R, tier):
     R.rule("C02-R3", "advertised = served: _get_exposed_members adds names under the same predicates the gates serve them; one mark-carrier order", floor=6)
     R.rule("C02-R4", "reserved dunder table contains the reference names; is_private_attribute returns False only for public names or non-reserved dunders", floor=3)
     R.rule("C02-R5", "expose marks only own (class __dict__), non-private members", floor=3)
+    R.rule("C02-R6", "the object id and member name reach the gate exactly as the peer sent them: no serializer coerces them (a bytes name must stay a non-string and be refused)", floor=4)
 
     # ---------------------------------------------------------------- R1
     f = ctx.fn("Pyro5.server.Daemon.handleRequest")
@@ -258,6 +297,18 @@ def run(ctx, R, tier):
     okc = bool(ckeys) and all(any(isinstance(e, ast.Name) and e.id == m.params[0] for e in n.value.elts) for n in ckeys)
     R.check(okc, "C02-R3", "metadata-cache|keyed-by-class-object", "the per-class metadata cache is keyed by the class object itself", m.loc(ckeys[0]) if ckeys else m.loc(),
             "the cache key `%s` does not contain the class object: two different classes that share a name get each other's advertised member list" % (unparse(ckeys[0].value) if ckeys else "?"))
+    # the reset routine must address the entry the lookup routine wrote: same normalisation of its argument, same key
+    rs = ctx.fn("Pyro5.server._reset_exposed_members")
+    rkeys = [n for n in walk_no_nested(rs.node) if isinstance(n, ast.Assign) and isinstance(n.value, ast.Tuple) and isinstance(n.targets[0], ast.Name) and
+             any(isinstance(x, ast.Name) and x.id == n.targets[0].id and not isinstance(getattr(x, "_parent", None), ast.Assign) for x in walk_no_nested(rs.node))]
+    if len(ckeys) == 1 and len(rkeys) == 1:
+        a, b = _canon_until(m.node, ckeys[0]), _canon_until(rs.node, rkeys[0])
+        R.check(a == b, "C02-R3", "metadata-cache|reset-addresses-the-same-key", "_reset_exposed_members builds its key exactly as _get_exposed_members does (class normalisation included)",
+                rs.loc(rkeys[0]), "the two routines derive the cache key differently:\n  lookup: %s\n  reset : %s\nso resetMetadataCache() misses the entry for some registrations "
+                "(e.g. objects registered as a class) and the daemon keeps advertising a member list it no longer serves" % (" ; ".join(a), " ; ".join(b)))
+    else:
+        R.fail("C02-R3", "metadata-cache|reset-addresses-the-same-key", "_reset_exposed_members builds its key exactly as _get_exposed_members does", rs.loc(),
+               "no single key tuple found in one of the two routines (lookup %d, reset %d)" % (len(ckeys), len(rkeys)))
     stores_c = [n for n in walk_no_nested(m.node) if isinstance(n, ast.Assign) and isinstance(n.targets[0], ast.Subscript) and "cache" in unparse(n.targets[0].value)]
     add_nodes = [n for k_ in adds.values() for c in k_ for n in ctx.node_of(m, c)]
     okp = bool(stores_c) and not any(mcfg.path_exists(mcfg.nodes_for(st), lambda n: n in add_nodes) for st in stores_c)
@@ -370,3 +421,24 @@ def run(ctx, R, tier):
                 okp = False
                 why = "mark at %s is not behind the private-name test" % ex.loc(st)
     R.check(okp, "C02-R5", "expose|single-member-private-raise", "function/property marks are stored only after the private-name refusal", ex.loc(), why)
+
+    # ---------------------------------------------------------------- R6
+    for c in sorted((ci for ci in p.classes.values() if ci.module.name == "Pyro5.serializers" and "loadsCall" in ci.methods and ci.name != "SerializerBase"), key=lambda c: c.name):
+        lc = c.methods["loadsCall"]
+        rets = [r for r in walk_no_nested(lc.node) if isinstance(r, ast.Return) and isinstance(r.value, ast.Tuple) and len(r.value.elts) == 4]
+        ok = bool(rets)
+        why = "loadsCall does not return the 4-tuple envelope"
+        for r in rets:
+            for pos, key in ((0, "object"), (1, "method")):
+                e = r.value.elts[pos]
+                raw = False
+                if isinstance(e, ast.Subscript) and isinstance(e.slice, ast.Constant) and e.slice.value == key:
+                    raw = True
+                elif isinstance(e, ast.Name):
+                    defs = [d for n in ctx.cfg(lc).nodes_for(r) for d in ctx.rd(lc).reaching(n, e.id)]
+                    raw = bool(defs) and all(d.kind == "unpack" and d.index == pos for d in defs)
+                if not raw:
+                    ok = False
+                    why = "the %s slot is returned as `%s`, not as decoded: a non-string name (bytes) is turned into something the gate accepts" % (key, unparse(e, 50))
+        R.check(ok, "C02-R6", "%s.loadsCall|names-returned-as-decoded" % c.name, "object id and member name are handed on exactly as decoded", lc.loc(), why)
+
